@@ -65,7 +65,14 @@ fn main() {
         "replay" => {
             let path = args.get(2).cloned().unwrap_or_else(|| usage());
             let strict = args.iter().any(|a| a == "--strict");
-            std::process::exit(framework::replay(&props, &path, strict));
+            // on a thread with the workers' stack size (scale cases recurse as deep as their terms)
+            let code = std::thread::Builder::new()
+                .stack_size(512 << 20)
+                .spawn(move || framework::replay(&pvh::props::all(), &path, strict))
+                .ok()
+                .and_then(|h| h.join().ok())
+                .unwrap_or(2);
+            std::process::exit(code);
         }
         _ => usage(),
     }
